@@ -383,8 +383,33 @@ func main() {
 				return false
 			})
 			if !found {
-				fmt.Printf("instr: struct type %q not found in %s\n", sn, fs.File)
-				os.Exit(1)
+				// renamed or split: fall back to every struct type declared in the file, so
+				// that a refactoring does not leave the check without a verdict
+				fmt.Printf("INSTR-WARNING struct type %q not found in %s: tracking the fields of every struct type of the file\n", sn, fs.File)
+				ast.Inspect(f, func(n ast.Node) bool {
+					ts, ok := n.(*ast.TypeSpec)
+					if !ok {
+						return true
+					}
+					st, ok := ts.Type.(*ast.StructType)
+					if !ok {
+						return true
+					}
+					for _, fld := range st.Fields.List {
+						if se, ok := fld.Type.(*ast.SelectorExpr); ok {
+							if id, ok := se.X.(*ast.Ident); ok && id.Name == "sync" {
+								continue
+							}
+						}
+						for _, nm := range fld.Names {
+							if !in.tracked[nm.Name] {
+								in.tracked[nm.Name] = true
+								fs.Fields = append(fs.Fields, nm.Name)
+							}
+						}
+					}
+					return true
+				})
 			}
 		}
 		for _, x := range fs.Idents {
@@ -397,9 +422,13 @@ func main() {
 		}
 		for _, x := range append(append([]string{}, fs.Fields...), fs.Idents...) {
 			if in.seen[x] == 0 {
-				fmt.Printf("instr: tracked name %q is not accessed anywhere in %s (renamed or removed?)\n", x, fs.File)
-				os.Exit(1)
+				fmt.Printf("INSTR-WARNING tracked name %q is not accessed anywhere in %s (unused, renamed or removed)\n", x, fs.File)
 			}
+		}
+		if in.nAccess == 0 {
+			// nothing to schedule on: an exploration of this file would be vacuous
+			fmt.Printf("instr: no access point could be generated in %s (tracked: %v)\n", fs.File, append(append([]string{}, fs.Fields...), fs.Idents...))
+			os.Exit(1)
 		}
 		nSync := 0
 		for _, im := range f.Imports {
